@@ -127,7 +127,7 @@ impl TreeGen {
 				5..=10 => r.range(1, 2),
 				11..=16 => r.range(2, 4),
 				17..=18 => r.range(5, 9),
-				_ => if depth == 0 && r.chance(1, 6) { 255 } else { r.range(1, 3) },
+				_ => if depth == 0 && r.chance(1, 2) { *r.pick(&[60u64, 120, 255]) } else { r.range(1, 3) },
 			}
 		} as usize;
 		let mut children = Vec::new();
@@ -192,6 +192,24 @@ impl TreeGen {
 		let choice = r.below(100);
 		if (choice < 50 || live_keys.is_empty()) && !free_keys.is_empty() {
 			let k = *r.pick(&free_keys);
+			// wide sharing: a new root whose children are many distinct nodes of one wide live
+			// tree (hundreds of ref-count entries written by one record)
+			if r.chance(1, 6) {
+				let wide: Vec<(usize, usize)> = self.live[c as usize]
+					.iter()
+					.filter(|(kk, (sh, _))| sh.children.len() >= 40 && !touched.contains(kk))
+					.map(|(kk, (sh, _))| (*kk, sh.children.len()))
+					.collect();
+				if !wide.is_empty() {
+					let (root, n) = *r.pick(&wide);
+					let take = std::cmp::min(n, 255);
+					let children: Vec<ChildSpec> =
+						(0..take).map(|i| ChildSpec::Existing { root, path: vec![i as u8] }).collect();
+					let shapes: Vec<Shape> = (0..take).map(|i| self.live[c as usize][&root].0.children[i].clone()).collect();
+					self.live[c as usize].insert(k, (Shape { children: shapes }, 1));
+					return Some(TxOp::InsertTree(k, TreeSpec { data: gen_node_val(r), children }))
+				}
+			}
 			let mut budget = *r.pick(&[3u32, 8, 20, 60, 300]);
 			let (spec, shape) = self.gen_tree(r, c, 0, &touched, &mut budget);
 			self.live[c as usize].insert(k, (shape, 1));
@@ -280,7 +298,8 @@ pub fn gen_ioerr(
 	} as u32;
 	let tryio = r.chance(1, 2);
 	let errno = *r.pick(&[libc::EIO, libc::ENOSPC, libc::EIO, libc::EMFILE]);
-	Some(Op::IoErr { inner: Box::new(inner), after, errno, tryio })
+	let space_only = !tryio && r.chance(1, 2);
+	Some(Op::IoErr { inner: Box::new(inner), after, errno, tryio, space_only })
 }
 
 pub fn gen_logfuzz(r: &mut Rng, _cfg: &RunCfg) -> Op {
